@@ -3,6 +3,7 @@
 //! derives from one `Rng` seeded by `VERIF_SEED`, so a disagreement replays exactly.
 
 pub mod backend;
+pub mod conc;
 pub mod rng;
 
 use std::fmt::Write as _;
